@@ -103,6 +103,9 @@ fn main() {
             if let Some(p) = a.get("coding-export") {
                 d_lzma::replay_coding_export(p, &prop, seed, a.num("limit", 20000) as usize, &mut rep);
             }
+            if let Some(p) = a.get("entry-points-export") {
+                d_lzma::replay_entry_points(p, &prop, seed, a.num("ep-rounds", 1) as usize, &mut rep);
+            }
             if let Some(p) = a.get("header-export") {
                 d_lzma::replay_header_export(p, &prop, seed, &mut rep);
             }
